@@ -210,6 +210,12 @@ class URLInfo(object):
         info.username = percent_decode(username, encoding=encoding)
         info.password = percent_decode(password, encoding=encoding)
 
+        # The user info is encoded again lazily by the url attribute. Text
+        # that cannot be encoded (a lone surrogate) is rejected here with a
+        # ValueError (UnicodeEncodeError) instead of failing on attribute access.
+        normalize_username(info.username)
+        normalize_password(info.password)
+
         info.host = host
         info.hostname = hostname
         info.port = port or RELATIVE_SCHEME_DEFAULT_PORTS[scheme]
